@@ -69,7 +69,7 @@ func vC09enum(spec vSpec) {
 	}
 	noattr := vChoose(2) == 1
 	dot := vChoose(2) == 1
-	prefix := []string{"-", "", "@"}[vChoose(3)]
+	prefix := []string{"-", "", "@", "-@"}[vChoose(4)]
 	SetAttrPrefix(prefix)
 	LeafUseDotNotation(dot)
 	wantP, wantV, emptyKey := refLeaves(m, noattr, prefix, "#text", dot)
